@@ -67,6 +67,7 @@ CHECKS = {
         "subchecks": [
             E("TestC04AllScenarios"),
             R("TestC04Faults", 15, 100, qs=2),
+            R("TestC04RealSigner", 40, 300, qs=2, ts=8),
         ],
     },
     "C05": {
@@ -99,6 +100,7 @@ CHECKS = {
             R("TestC06Attest", 1500, 6000),
             E("TestC06PositionSweep"),
             E("TestC06ChainTime"),
+            E("TestC06KeySizes"),
             R("TestC06Sequence", 300, 2000, ts=4),
             R("TestC06RealDER", 200, 800, ts=4),
         ],
@@ -113,6 +115,7 @@ CHECKS = {
         "assumptions": ["golang.org/x/crypto keyring is the underlying agent", "the purge order documented in the code comments (orphans against the reported list, then expiry) is the contract"],
         "subchecks": [
             R("TestC07Purge", 400, 1500, qs=2),
+            R("TestC07PurgeRefused", 150, 1500),
             R("TestC07Lapse", 6, 60, qs=8, ts=16, thorough_extra={"timeout": 1200}),
         ],
     },
@@ -177,6 +180,7 @@ CHECKS = {
             E("TestC12Sizes"),
             R("TestC12Stream", 5000, 50000),
             R("TestC12StreamReal", 300, 2000, ts=8),
+            R("TestC12LocalSlots", 60, 600, ts=4),
             F("FuzzC12Stream", "90s"),
         ],
     },
